@@ -64,6 +64,11 @@ pub enum Bad {
     /// an insert / update / create_table that needs one more string than a
     /// full pool (65,535 entries) can take (runs for one selector value in 16)
     PoolFull(u8),
+    /// the session continues on a foreign file that has no `_Validation`
+    /// table (transforms and stripped packages), where table creation is
+    /// refused: (kind, n) as for CreateLate for kind % 10 < 8, 8 = a creation
+    /// that would be valid elsewhere, 9 = a creation without a key column
+    NoValidation(u8, u8),
 }
 
 #[derive(Clone, Debug, Serialize, Deserialize, Hash, PartialEq, Eq)]
@@ -193,6 +198,11 @@ fn perform(run: &mut Run, bad: &Bad) -> Option<(String, std::io::Result<()>)> {
             let rows: Vec<Vec<Value>> = (0..extra).map(|i| vec![Value::Int(start + i), Value::from(format!("over the limit {i}"))]).collect();
             Some((format!("insert(Full, {extra} more rows)"), run.pkg().insert_rows(Insert::into("Full").rows(rows))))
         }
+        Bad::NoValidation(kind, n) => match kind % 10 {
+            8 => Some(("create_table(Fresh, valid columns) on a database without _Validation".into(), run.pkg().create_table("Fresh", vec![key_col(), Column::build("Name").nullable().string(16)]))),
+            9 => Some(("create_table(Fresh, no key column) on a database without _Validation".into(), run.pkg().create_table("Fresh", vec![Column::build("Name").nullable().string(16)]))),
+            k => perform(run, &Bad::CreateLate(k, *n)).map(|(what, r)| (format!("{what} on a database without _Validation"), r)),
+        },
         Bad::PoolFull(k) => match (k / 16) % 5 {
             4 => Some((
                 "update(U) assigning three strings new to a pool that has one free entry".into(),
@@ -462,6 +472,14 @@ pub fn check_case(case: &Case, st: &mut Stats) -> Check {
         }
         run.trace.push("(the package is replaced by a file whose string pool holds 65,535 entries, or 65,532 for the late-failing creation)".into());
     }
+    if let Bad::NoValidation(_, n) = &case.bad {
+        let mut db = crate::props::c20::strings_db(3 + (*n % 3) as u32);
+        db.with_validation = false;
+        let bytes = crate::enc::encode_db(&db).map_err(|e| Fail::new(format!("{P} harness-encoder"), e))?;
+        run.buf = crate::media::SharedBuf::new(bytes);
+        run.pkg = Some(Package::open(run.buf.clone()).map_err(|e| Fail::new(format!("{P} unexpected-error op=Open"), e.to_string()))?);
+        run.trace.push("(the package is replaced by a foreign file with one table and no _Validation table)".into());
+    }
     if let Bad::DropGhost(k) = &case.bad {
         let row = |col: &str| -> Vec<Value> {
             vec![Value::from("Ghost"), Value::from(col), Value::from("N"), Value::Null, Value::Null, Value::Null, Value::Null, Value::from("Identifier"), Value::Null, Value::from("left over")]
@@ -603,13 +621,14 @@ fn bad_strategy() -> impl Strategy<Value = Bad> {
         2 => any::<u8>().prop_map(Bad::DropGhost),
         1 => any::<u8>().prop_map(Bad::InsertOverRowLimit),
         2 => any::<u8>().prop_map(Bad::PoolFull),
+        3 => (any::<u8>(), any::<u8>()).prop_map(|(a, b)| Bad::NoValidation(a, b)),
     ]
 }
 
 pub fn run(ctx: &Ctx) -> Report {
     let mut rep = Report::new(
         "exploration",
-        "a generated valid prefix (tables, rows, streams, summary, code page, reopen) to reach a state, then one invalid call from a catalogue of 24 kinds: unknown / invalid / reserved names, arity 0..33, one invalid value (each way of being invalid) at the first, middle or last row of a batch, duplicate key against the table and inside the batch, unknown column in SET or WHERE, key-colliding update, stream calls with refused names or on missing streams, and late failures (column names of 33..64 characters, table names of 33..60, widths above 255, enumerations beyond 255 characters or with ';', ranges including i32::MIN, malformed foreign keys). Oracle when the call returns Err: full API snapshot (including the three catalog tables) before == after; snapshot after flush + reopen before == after; string-pool entries seen by the independent decoder before == after and the saved file still passes the C08 file checks. Non-trivial = the call returned Err; distinct by (state, call).",
+        "a generated valid prefix (tables, rows, streams, summary, code page, reopen) to reach a state, then one invalid call from a catalogue of 25 kinds: unknown / invalid / reserved names, arity 0..33, one invalid value (each way of being invalid) at the first, middle or last row of a batch, duplicate key against the table and inside the batch, unknown column in SET or WHERE, key-colliding update, stream calls with refused names or on missing streams, and late failures (column names of 33..64 characters, table names of 33..60, widths above 255, enumerations beyond 255 characters or with ';', ranges including i32::MIN, malformed foreign keys; the same late-failing creations on a foreign database that has no _Validation table). Oracle when the call returns Err: full API snapshot (including the three catalog tables) before == after; snapshot after flush + reopen before == after; string-pool entries seen by the independent decoder before == after and the saved file still passes the C08 file checks. Non-trivial = the call returned Err; distinct by (state, call).",
     );
     rep.assumptions.push("a call that unexpectedly returns Ok is not judged here (it belongs to C06 / C07 / C20)".into());
     let mut st = Stats::new();
